@@ -40,6 +40,16 @@
 (* invariants at the end of this file on every state, and prints each       *)
 (* complete program with the demanded pixel sets as JSON.  drive/xsec.cpp   *)
 (* executes them on the real CrossSection API.                              *)
+(*                                                                          *)
+(* EXTENDING (C12 ...).  A new unary operation on values is one more name   *)
+(* in Gen2 (if it is a lattice-group element or value-preserving) bound in  *)
+(* drive/xsec.h!ApplyGen, or a new step kind: an action that calls          *)
+(* Push(record, pixel set, lattice-rectilinear?) plus a line in Can/Next    *)
+(* and a case in drive/xsec.cpp.  Every step record is printed with         *)
+(* pix / n / lat (Demand) and is judged by the driver's final sweep.        *)
+(* Configurations (Xsec_*.cfg) choose the leaf family, the enabled step     *)
+(* kinds, the bounds, and exhaustive BFS (Sample = FALSE) or -simulate      *)
+(* sampling (Sample = TRUE).  K must be >= KC = 4 (the catalogue's square). *)
 (***************************************************************************)
 EXTENDS Integers, Sequences, FiniteSets, TLC, Json, SequencesExt
 
